@@ -19,7 +19,9 @@ P("C29",
              "not modelled line by line; they are covered by trace inclusion of sampled real runs and by the abstract channel network.",
   assumptions=["message IDs handed to the network are unique and the sending port is the message's Src (generator obligation, re-checked by the acceptor)",
                "devices keep draining their ports (the scripted devices drain 1-2 messages per port every 1-3 ticks)",
-               "port names and traffic-class strings are interned as numbers"],
+               "port names and traffic-class strings are interned as numbers",
+               "a run that is still producing events after 50,000 cycles (normal runs quiesce within ~1,000) is cut, not closed by End, and therefore rejected",
+               "configurations the connectors reject at build time (PCIe v1 x1: flit size rounds to 0; Ethernet links: non-ideal connections are unimplemented) are not generated"],
   trusted=["modelled abstractly, not verified: noc/networking/switching/switches (receivepipelinemw.go, routeforwardsendmw.go), "
            "directconnection; modelled exactly and tied: endpoint (C31), routing tables (C30), bandwidth-first router with ideal links"],
   quick_shards=8,
